@@ -7,6 +7,12 @@ from vlib import Infra, read_ndjson, write_ndjson
 def judge(ctx, cases, tag, chunk=4000):
     wd = ctx.sub("st-" + tag)
     p0, p1 = os.path.join(wd, "c0.ndjson"), os.path.join(wd, "c1.ndjson")
+    # a share of the programs once more in another legal spelling (harness/respell.go): the verdict may not depend on it
+    import progflow
+    extra = progflow.respelled(ctx, cases)
+    if extra:
+        cases = list(cases) + extra
+        ctx.notes["respelled_cases"] = ctx.notes.get("respelled_cases", 0) + len(extra)
     write_ndjson(p0, cases)
     ctx.run_vh("outcome", p0, p1, os.path.join(wd, "scr"))
     ran = read_ndjson(p1)
